@@ -1,5 +1,6 @@
 import ACModel.Driver.GroupedList
 import ACModel.Driver.Discretizer
+import ACModel.Driver.Carve
 /-
   acdriver: JSON-lines driver around the executable model and the specification predicates.
   One request per line on stdin, one response per line on stdout.
@@ -11,6 +12,9 @@ def dispatch (j : Json) : R Json := do
   | "ping" => pure (obj [("pong", Json.bool true)])
   | "gl.run" => DriverGL.run j
   | "judge.C13" => DriverGL.judge j
+  | "carve" => DriverCarve.carve j
+  | "carve.candidates" => DriverCarve.candidatesReq j
+  | "combos" => DriverCarve.combos j
   | "disc.labels" => DriverDisc.labels j
   | "disc.transform" => DriverDisc.transform j
   | "disc.reload" => DriverDisc.reload j
